@@ -330,7 +330,7 @@ def rejected_by_reused_generator(valid_files, files, raw=None):
 
 def _judge_reuse_pair(label, first, second, raw):
     if rejected(first) is not None:
-        raise loader.HarnessError(f"reuse pair '{label}': the first tree is not accepted")
+        return None  # a generator that refuses this valid tree is C18's finding, not an ill-formed tree getting through
     if rejected(second, raw) is None:
         return f"'{label}': the ill-formed tree is accepted by the generator"
     if rejected_by_reused_generator(first, second, raw) is False:
